@@ -773,6 +773,7 @@ def _events(ctx, modname, base_name, enum_name):
         rets = [s for s in K.walk_no_nested(ed.node)
                 if isinstance(s, ast.Return) and s.value is not None]
         whole = K.expr_of_function(ed.raw)
+        several = whole is None and len(rets) > 1
         if whole is None and rets:
             whole = rets[0].value
         # a writer with a short form for a None slot (if self.x is None:
@@ -785,6 +786,10 @@ def _events(ctx, modname, base_name, enum_name):
                 isinstance(whole.test.comparators[0], ast.Constant) and \
                 whole.test.comparators[0].value is None:
             cands = [whole.body, whole.orelse]
+        if several:
+            # the same choice spelled with statements (a test held in a
+            # local, an early return): every returned form is a candidate
+            cands = [r.value for r in rets]
         parsed = [_template_fields(c) for c in cands if c is not None]
         fields, seps = max(parsed, key=lambda fs: len(fs[0])) if parsed \
             else ([], '')
@@ -1423,10 +1428,22 @@ def _emptied_list_reaches_update(ctx):
                     hit = True
             if not hit:
                 continue
-            # under: the field is list-typed and the object gives []
-            conds = ' and '.join(_enclosing_tests(lp.ast, node.ast))
-            if 'isinstance(%s, list)' % ftype in conds and \
-                    objf in conds and '[]' in conds:
+            # under: the field is list-typed and the object gives [] -
+            # decided on the CFG (nested ifs, guard clauses with continue
+            # and named booleans alike)
+            nzu = N.Normaliser(env=K.func_env(upd))
+
+            def is_list(atom, ftype=ftype):
+                return atom.key[0] == 'truth' and atom.key[2] and \
+                    atom.key[1] == 'isinstance(%s, list)' % ftype
+
+            def is_empty(atom, objf=objf):
+                return atom.key[0] == 'cmp' and atom.key[1] == '==' and \
+                    objf in str(atom.key[2]) and '[]' in str(atom.key[2])
+            if K.guarded_by_atoms(ctx, upd, ugraph, node, is_list, nzu,
+                                  follow_exc=False) and \
+                    K.guarded_by_atoms(ctx, upd, ugraph, node, is_empty,
+                                       nzu, follow_exc=False):
                 completes.append(lp)
     ok = bool(completes) and sent is not None and all(K.guarded_by(
         ugraph, s, lambda e: e.src in completes and e.kind == 'done')
@@ -1717,6 +1734,15 @@ def _none_slots(ctx, modname, base_name):
                                 if isinstance(tgt, ast.Name) and \
                                         tgt.id not in params:
                                     slots.add(tgt.id)
+        # the slot a local stands for is the constructor keyword it is
+        # handed to (the local may be called anything)
+        kwmap = {}
+        for sub in K.walk_no_nested(rd.raw):
+            if isinstance(sub, ast.Call):
+                for kw in sub.keywords:
+                    if kw.arg and isinstance(kw.value, ast.Name):
+                        kwmap.setdefault(kw.value.id, kw.arg)
+        slots = set(kwmap.get(name, name) for name in slots)
         for slot in sorted(slots):
             seen += 1
             tested = any(
